@@ -9,13 +9,17 @@ MCSrcsSmall == { [src |-> "/",      key |-> "/"],
                  [src |-> "h.com/", key |-> "h.com/"],
                  [src |-> "H.com/", key |-> "h.com/"] }
 MCSrcsFull  == MCSrcsSmall \cup
-               { [src |-> "h.com/a", key |-> "h.com/a"],
+               { [src |-> "H.COM",   key |-> "h.com/"],
+                 [src |-> "h.com",   key |-> "h.com/"],
+                 [src |-> "h.com/a", key |-> "h.com/a"],
                  [src |-> "H.COM/a", key |-> "h.com/a"],
                  [src |-> "h.com/A", key |-> "h.com/A"],
                  [src |-> ":1234",   key |-> ":1234"] }
+\* a source without a slash is a host with path "/" ("route weight vault vault.company.com weight 1 ..." in the docs)
 MCSrcsMid   == MCSrcsSmall \cup
                { [src |-> "h.com/a", key |-> "h.com/a"],
-                 [src |-> ":1234",   key |-> ":1234"] }
+                 [src |-> ":1234",   key |-> ":1234"],
+                 [src |-> "H.COM",   key |-> "h.com/"] }
 MCW == { QZero, Q(1, 5), Q(1, 2) }
 MCWFull == MCW \cup { Q(-1, 2) }    \* a negative weight is a legal spelling of "dynamic"
 MCTagSeqs == { <<>>, <<"t1">>, <<"t1", "t2">> }
